@@ -8,15 +8,15 @@ props = [json.loads(l) for l in open(os.path.join(here, 'properties.jsonl'))]
 CHECKS = {
  'C01': ('property-based differential testing against a reference evaluator (proptest-driven choice sequences, pointer-identity locations), known-finding attribution by quirk model',
          'Random search: generated (document, query, spelling) triples are evaluated by the library through the public API and as a programmatic AST, and the multiset of selected locations (by address inside the caller\'s document) is compared with an independent RFC 9535 evaluator. Exploration only: it shows agreement on everything generated, within the stated size bounds.',
-         'Trusted: the harness oracle (self-tested against the RFC example tables at every run), the generators\' size bounds (ordinary documents depth <= 4 and width <= 4-5, plus wide containers of 5-300 scalars, lists of up to 40 records, deep documents of 8-300 levels, flat arrays up to 70 000 in the large-flat box; <= 4 segments per query), serde_json.', 'DESIGN.md section 4 C01'),
+         'Trusted: the harness oracle (self-tested against the RFC example tables at every run), the generators\' size bounds (ordinary documents depth <= 4 and width <= 4-5, plus wide containers of 5-300 members (scalars, sometimes small containers among them), lists of up to 80 records (sometimes with holes), deep documents of 8-300 levels, flat arrays up to 70 000 in the large-flat box; <= 4 segments per query), serde_json.', 'DESIGN.md section 4 C01'),
  'C02': ('property-based differential testing against a reference evaluator: exact result sequence (order and multiplicity), breadth-first descendant order accepted as valid, known finding K1 attributed by quirk model',
          'Random search biased to what makes order observable (multi-selector segments, several input nodes, negative steps, descendants, duplicates); the ordered list of selected locations (by address) must equal the reference evaluator\'s. A second generator excludes the open finding K1 by construction so that most of the budget searches with the strict oracle only; query_only_path must list the same nodes in the same order; a non-Value type with shuffled insertion order must be visited in its own member order. Exploration only.',
          'Trusted: the harness oracle (self-tested on the RFC tables); serde_json sorted member order is the document order of a Value; size bounds as for C01.', 'DESIGN.md section 4 C02'),
  'C11': ('bounded-exhaustive enumeration plus property-based random cases against the RFC slice pseudo-code in 128-bit arithmetic',
-         'Every slice (start,end in absent/-10..10, step in absent/-4..4) and index on arrays of length 0..8 is enumerated completely, boundary values (+-(2^53-1), +-2^31, +-len+-1 ...) are placed in every position, non-array targets are swept, and random nested / large (<= 300) arrays are sampled; the ordered index sequence and the reported paths must equal the RFC pseudo-code. Exhaustive inside the stated boxes, exploration outside.',
-         'Trusted: slice_indices() (transcription of RFC 9535 2.3.4.2.2, self-tested on the RFC examples); termination judged by a 40 s watchdog around each library call.', 'DESIGN.md section 4 C11'),
+         'Every slice (start,end in absent/-10..10, step in absent/-4..4) and index on arrays of length 0..8 is enumerated completely, boundary values (+-(2^53-1), +-2^31, +-len+-1 ...) are placed in every position, non-array targets are swept, arrays of 33 to 65 537 elements (300 000 in the thorough tier) are taken through extreme and ordinary bounds and steps, and random nested / large (<= 300) arrays are sampled; the ordered index sequence and the reported paths must equal the RFC pseudo-code. Exhaustive inside the stated boxes, exploration outside.',
+         'Trusted: slice_indices() (transcription of RFC 9535 2.3.4.2.2, self-tested on the RFC examples); termination judged by a 40 s watchdog around each library call and by a supervising parent process (a selection that kills a fresh process on its own is a violation).', 'DESIGN.md section 4 C11'),
  'C03': ('property-based testing with an independent location oracle (pointer identity) and RFC 2.7 path normaliser; round-trip (re-query of every reported path) and injectivity checks; known findings K2/K3 attributed by quirk model',
-         'Random documents with hostile member names and queries over every route; each reported (node, path) pair is compared with the normalized path of the location found by address, equal paths must mean equal nodes, and every reported path is run as a query and must return exactly that node with that path. Also `$..*` over every generated document. Exploration only.',
+         'Random documents with hostile member names and queries over every route; each reported (node, path) pair is compared with the normalized path of the location found by address, equal paths must mean equal nodes, and every reported path is run as a query and must return exactly that node with that path. Also `$..*` over every generated document, lists of records with optional members under one-test filters, wide flat containers, and wide arrays touched for the first time by 16 threads at once. Exploration only.',
          'Trusted: normalized_path() (self-tested on the RFC examples), the recogniser used to read reported paths back into the oracle, size bounds as for C01.', 'DESIGN.md section 4 C03'),
  'C04': ('bounded-exhaustive comparison table against a direct transcription of the RFC rules, algebraic laws asserted on the library\'s own answers, plus property-based metamorphic equal/unequal copies and adjacent doubles',
          'All ordered pairs of a 50-value universe (every JSON kind, colliding values, Nothing) x 6 operators x operand forms are evaluated through the public API and compared with the RFC 9535 2.3.5.2.2 rules; != / <= / >= / trichotomy laws are asserted on the library\'s answers independently of the oracle; random deep values are compared with respelled/reordered (equal) and minimally changed (unequal) copies; random numeric neighbours, integer neighbours beyond 2^53 and number literals beyond the f64 range. Exhaustive inside the table, exploration outside.',
@@ -28,19 +28,19 @@ CHECKS = {
          'length() is swept over every kind of argument x n; count()/value() get generated argument queries selecting 0, 1 or many nodes and their results are used inside comparisons, negations and conjunctions; match()/search() get generated pattern ASTs (alternation, anchors, classes, quantifiers, \\p{..}) with subjects derived from the pattern, delivered as literals and through document nodes, plus invalid and non-string patterns/subjects; metacharacters as literal characters; compared numbers in every spelling. The oracle never uses the regex crate. Exploration only (exhaustive inside the length box).',
          'Trusted: the harness matcher and pattern parser (harness/src/regexo.rs; render/parse round-trip checked on every case), the reference evaluator; dialect and alphabet restrictions stated in the evidence assumptions; a 400k-step budget on the naive matcher (exceeded cases are counted as not judged).', 'DESIGN.md section 4 C10'),
  'C06': ('grammar-based property testing: sentences derived from the RFC 9535 ABNF by two independent generators, rendered over all spelling freedoms, cross-checked by an independent recogniser; accept/no-Err oracle',
-         'Random ASTs covering the whole grammar are rendered with random blanks at every S position, both quote styles, every escape form, dot/bracket notation, all number forms and nesting up to 32, and must be accepted by parse_json_path and evaluate without Err on three documents; the recogniser must agree that each sentence is valid (else the harness, not the library, is reported). Mutants that the recogniser still classifies valid are fed in too. Exploration only.',
+         'Random ASTs covering the whole grammar are rendered with random blanks at every S position, both quote styles, every escape form, dot/bracket notation, all number forms and nesting up to 32, and must be accepted by parse_json_path and evaluate without Err on three documents; the recogniser must agree that each sentence is valid (else the harness, not the library, is reported). Mutants that the recogniser still classifies valid are fed in too. Two enumerated boxes: nesting / chain length 33-900, and one long token or run (names in every notation, literals, patterns, fractions, exponents, blanks, selections, chains) of 255 to 100 000 characters (300 000 thorough). Exploration only outside the boxes.',
          'Trusted: validity by construction + the recogniser (self-tested on RFC examples). Bounds: function nesting <= 3, bracket nesting <= 32.', 'DESIGN.md section 4 C06'),
  'C07': ('mutation-based property testing against an independent RFC 9535 recogniser (differential accept/reject oracle): token-level and character-level near misses, AST-level ill-typed calls, a targeted bounded box, token soup',
-         'Valid sentences are mutated by 1-3 token or character edits, ill-typed/mis-aritied function calls are built on the AST and embedded in valid queries, and a targeted box places every forbidden integer form, blank, string form and filter form into every position that takes one; whatever the recogniser classifies Invalid must be rejected by parse_json_path and by JsonPath::query. Strings the recogniser does not judge (extension function names, literals beyond I-JSON, blanks inside singular-query brackets) are counted and skipped. Exploration only (the targeted box is enumerated completely).',
+         'Valid sentences are mutated by 1-3 token or character edits, ill-typed/mis-aritied function calls are built on the AST and embedded in valid queries, and a targeted box places every forbidden integer form, blank, string form and filter form into every position that takes one; whatever the recogniser classifies Invalid must be rejected by parse_json_path and by JsonPath::query. Strings the recogniser does not judge (extension function names, blanks inside singular-query brackets) are counted and skipped; an integer literal of a comparison outside the I-JSON range is judged invalid (the property lists out-of-range integers and is anchored in that check of the library). Exploration only (the targeted box is enumerated completely).',
          'Trusted: the recogniser (hand-written from RFC 9535 Appendix A, 2.1, 2.4; self-tested; cross-validated against the C06 generators on every run of C06).', 'DESIGN.md section 4 C07'),
  'C08': ('fuzz-style property testing in-process (catch_unwind, overflow checks, PEG call-budget meter, per-call watchdog) over generated valid / mutated / arbitrary inputs and extreme integers, plus scaling probes in isolated child processes; known findings K6/K7 attributed by input class + failure kind',
-         'Every generated input runs through all seven public entry points; a panic, an abort, a PEG call budget overrun, a call that does not return within 40 s, disagreement between entry points about Ok/Err, or an Err from evaluating a successfully parsed query is a violation. Stack exhaustion and parse-work blow-up are probed in child processes at sizes 8..65536; regular expressions of every nesting depth 1..300 and of extreme sizes are swept in-process. Exploration only; absence of hangs cannot be established by this technique and is approximated by the budgets stated in the evidence.',
+         'Every generated input runs through all seven public entry points; a panic, an abort, a PEG call budget overrun, a call that does not return within 40 s, disagreement between entry points about Ok/Err, or an Err from evaluating a successfully parsed query is a violation. Stack exhaustion and parse-work blow-up are probed in child processes at sizes 8..65536; regular expressions of every nesting depth 1..300 and of extreme sizes, parenthesised binary trees of conditions with && / || at every level (every depth 1..64, to 256) and comparisons of equal containers nested 1..128 deep are swept in-process (work that multiplies per level ends at the watchdog). Exploration only; absence of hangs cannot be established by this technique and is approximated by the budgets stated in the evidence.',
          'Trusted: pest::set_call_limit as a deterministic parse-work meter; 8 MiB stack as the reference environment for the probes; bulk inputs have nesting <= 40.', 'DESIGN.md section 4 C08'),
  'C09': ('model-based property testing: every node location of generated documents (pointer identity for reads, whole-document model comparison for writes), derived non-existent locations, and generated write histories against an in-memory model; known finding K3 attributed by model',
          'For every node of documents with JSON-Pointer-hostile and escape-needing member names, reference(normalized path) must return that node by address and a write through reference_mut must equal the model (replace the subtree, nothing else); locations that do not exist (index = len, a negative index below the start, numeric name on an array, index on an object, a/b and ~1 confusions, steps below scalars) must give None and leave the document unchanged; histories of up to 6 writes through the paths of one query are replayed against the model step by step. Exploration only.',
          'Trusted: normalized_path(), the replacement model, pointer identity.', 'DESIGN.md section 4 C09'),
  'C12': ('property-based testing of agreement and purity: entry points compared position by position, generated evaluation histories against a fresh-process reference, generated multi-thread schedules against the sequential result, compile-time Send/Sync assertion',
-         'Random pairs run through query, query_only_path, query_with_path and js_path_process(parse(q)) (twice) and must agree by address and path with the document unchanged; histories of 8-40 evaluations over colliding documents and queries (also through clones of the parsed query) must equal, step by step, the same pair evaluated first in a fresh process; 2-16 threads share parsed queries and documents behind a barrier and must reproduce the sequential results; a separate crate asserts Send + Sync + Clone at compile time. Exploration only; thread interleavings are sampled by stress, not enumerated.',
+         'Random pairs run through query, query_only_path, query_with_path and js_path_process(parse(q)) (twice) and must agree by address and path with the document unchanged; histories of 8-40 evaluations over colliding documents and queries (also through clones of the parsed query, and from frames up to 12 MiB deeper on the stack) must equal, step by step, the same pair evaluated first in a fresh process; 2-16 threads share parsed queries and documents behind a barrier and must reproduce the sequential results; a separate crate asserts Send + Sync + Clone at compile time. Exploration only; thread interleavings are sampled by stress, not enumerated.',
          'Trusted: fresh process = no history. A data race that needs a rare interleaving can be missed (stated in the evidence).', 'DESIGN.md section 4 C12'),
  'C13': ('metamorphic property-based testing: one abstract query re-rendered in independently chosen equivalent spellings, results compared by node address; differences attributed through the reference evaluator to open findings only',
          'Each generated query is rendered in 4-6 further spellings (.name / [\'name\'] / ["name"], .* / [*], ?e / ?(e) / redundant or dropped parentheses, optional second slice colon, blanks from all four characters at every S position, integer / fraction / exponent spellings, separately: escape spellings) and all must select the same nodes in the same order on the same document. Exploration only.',
